@@ -99,6 +99,15 @@ theorem links_do_not_depend_on_row_order (dir : String) (nc : Bool) (rows rows' 
     linkGet (links dir nc rows []).1 name = linkGet (links dir nc rows' []).1 name :=
   links_order_independent dir nc rows rows' hp hd name
 
+/-- for EVERY CSV (labels repeated or not), every starting directory and wherever the run stops: a file of the
+    directory afterwards either was there before with the same content, or is the file of one of the rows and lists
+    exactly that row's fragments - no file ever lists fragments that no row gave for its label -/
+theorem links_files_come_from_rows (dir : String) (nc : Bool) (rows : List (Nat × List String))
+    (s : LinkStore) (name : String) (fr : List String)
+    (h : linkGet (links dir nc rows s).1 name = some fr) :
+    linkGet s name = some fr ∨ ∃ r ∈ rows, name = linkName dir r.1 nc ∧ fr = r.2 :=
+  Mesh.links_files_come_from_rows dir nc rows s name fr h
+
 example : links "mesh" false [(7, ["a", "b"]), (10, []), (7, ["c"])] [] =
     ([("mesh/10:0", []), ("mesh/7:0", ["a", "b"])], false) ∧
     (links "mesh" true [(7, ["a", "b"]), (10, [])] []).2 = true := by decide
